@@ -691,7 +691,9 @@ func (s *Stage) cleanStrays(minAge time.Duration) {
 			fileHash := s.getFileHash(filePath)
 			if fileState > stateReceived {
 				delete = comp == nil || comp.Hash == fileHash
-				deleteCmp = compExists && fileState == stateLogged
+				// The companion goes only together with its partial: a companion of
+				// another hash is the record of a newer version still being received
+				deleteCmp = delete && compExists && fileState == stateLogged
 				s.logDebug("Stray partial cache info:", relPath, fileState, fileHash)
 			} else {
 				end := time.Now()
